@@ -103,9 +103,39 @@ def none_guard_only(kind, node, scope, vname, use):
     return norm == [('none', True)], norm
 
 
+def normalise_saxutils(py):
+    """`from xml.sax import saxutils` + `saxutils.escape(x)` is the same binding as `from xml.sax.saxutils import escape` + `escape(x)`: the qualified
+    spelling is rewritten to the bare one in the parsed tree (once), so that every rule sees one vocabulary"""
+    m = py.mod('xmlwriter')
+    if getattr(m, '_sax_normalised', False):
+        return
+    m._sax_normalised = True
+    aliases = [local for local, (mod_, remote) in m.imports.items()
+               if (mod_ == 'ext:xml.sax' and remote == 'saxutils') or (mod_ == 'ext:xml.sax.saxutils' and remote is None)]
+    if not aliases or any(fn in m.functions or fn in m.assigns or fn in m.classes for fn in ('escape', 'quoteattr')):
+        return
+    n_rw = 0
+    for node in list(ast.walk(m.tree)):
+        for field, value in ast.iter_fields(node):
+            items = value if isinstance(value, list) else [value]
+            for i, x in enumerate(items):
+                if isinstance(x, ast.Attribute) and isinstance(x.value, ast.Name) and x.value.id in aliases and x.attr in ('escape', 'quoteattr') and isinstance(x.ctx, ast.Load):
+                    new = ast.copy_location(ast.Name(id=x.attr, ctx=ast.Load()), x)
+                    new._parent = node
+                    if isinstance(value, list):
+                        value[i] = new
+                    else:
+                        setattr(node, field, new)
+                    n_rw += 1
+    if n_rw:
+        for fn in ('escape', 'quoteattr'):
+            m.imports.setdefault(fn, (SAX, fn))
+
+
 def escaping_rule(ctx, r1):
     """taint-style rule shared with C07: values reach the XML text only through the stdlib escaping functions"""
     py = ctx.py
+    normalise_saxutils(py)
     m = py.mod('xmlwriter')
     rel = m.rel
     # ------------------------------------------------------------------ R1 escaping discipline
@@ -144,6 +174,21 @@ def escaping_rule(ctx, r1):
     if dname not in [a.arg for a in f.args.args]:
         raise AnalysisError('build_xml_tag has no `data` parameter')
     esc_total = []
+    aliases = set()
+
+    def passthrough(callee, pn):
+        rets_ = [n for n in P.walk_no_nested(callee) if isinstance(n, ast.Return)]
+        okr = bool(rets_)
+        for rt in rets_:
+            v = rt.value
+            if isinstance(v, ast.Name) and v.id == pn:
+                continue
+            if isinstance(v, ast.Call) and isinstance(v.func, ast.Attribute) and v.func.attr == 'decode' and isinstance(v.func.value, ast.Name) and v.func.value.id == pn \
+                    and [str(py.try_fold(a, m)).lower().replace('-', '') for a in v.args] == ['utf8']:
+                continue
+            okr = False
+        stores_ = [t for t, v, st in P.stores_in(callee) if isinstance(t, ast.Name) and t.id == pn]
+        return okr and not stores_
 
     def follow(fn, pname, depth):
         stores = [(t, v, st) for t, v, st in P.stores_in(fn) if isinstance(t, ast.Name) and t.id == pname]
@@ -163,6 +208,13 @@ def escaping_rule(ctx, r1):
                 call = P.parent(u)
                 bound = P.bind_call(call, callee, skip_self=False) if isinstance(call, ast.Call) else {}
                 pn = [k_ for k_, v_ in bound.items() if v_ is u]
+                if len(pn) == 1 and passthrough(callee, pn[0]):
+                    # a decode-or-identity helper: its result stands for the text itself
+                    k2 = classify_use(call)
+                    aliases.add(P.src(call))
+                    r1.check(k2 in ('arg:escape/1/0',), '%s: use of element text (through %s)' % (fn.name, callee.name), rel, u.lineno,
+                             'element text reaches the output other than through escape(): %s in `%s`' % (k2, P.src(P.enclosing_stmt(u))), detail=k2)
+                    continue
                 if len(pn) == 1:
                     follow(callee, pn[0], depth + 1)
                     continue
@@ -173,7 +225,7 @@ def escaping_rule(ctx, r1):
             if P.call_name(c) == 'escape':
                 esc_total.append((c, pname))
     follow(f, dname, 0)
-    r1.check(len(esc_total) == 1 and len(esc_total[0][0].args) == 1 and not esc_total[0][0].keywords and P.src(esc_total[0][0].args[0]) == esc_total[0][1],
+    r1.check(len(esc_total) == 1 and len(esc_total[0][0].args) == 1 and not esc_total[0][0].keywords and (P.src(esc_total[0][0].args[0]) == esc_total[0][1] or P.src(esc_total[0][0].args[0]) in aliases),
              'build_xml_tag: escape(data)', rel, f.lineno, 'element text is not escaped exactly once with the stdlib default entity set')
     # write_line(do_escape)
     wl = py.func('xmlwriter', 'XMLWriter.write_line')
@@ -197,6 +249,7 @@ def escaping_rule(ctx, r1):
 
 def check(ctx):
     py = ctx.py
+    normalise_saxutils(py)
     m = py.mod('xmlwriter')
     rel = m.rel
 
@@ -431,7 +484,8 @@ def check(ctx):
     enc = [py.try_fold(c.args[0], m) for c in P.calls_in(ge) if isinstance(c.func, ast.Attribute) and c.func.attr == 'encode' and c.args]
     r5.check([str(e).lower() for e in enc] == ['utf-8'], 'get_encoded_xml encoding', rel, ge.lineno, 'document encoded as %s' % enc)
     dec = []
-    for fn in (py.func('xmlwriter', 'build_xml_tag'), wl):
+    # every bytes -> str decoding in the module (the writer's functions or the helpers they share)
+    for fn in [x for x in m.functions.values()] + list(py.methods('xmlwriter', 'XMLWriter').values()):
         for c in P.calls_in(fn):
             if isinstance(c.func, ast.Attribute) and c.func.attr == 'decode':
                 dec.append(str(py.try_fold(c.args[0], m) if c.args else 'utf-8').lower())
